@@ -375,6 +375,106 @@ def ofSk : Sk → LNode
   | .fn cs => ⟨none, labelCells cs 0⟩
   | _ => ⟨none, []⟩
 
+/-! ### the evaluator cannot tell trees with the same flat words apart: statement-level definitions -/
+
+/-- `eval`'s `call` / `Machine.step`: the returned value becomes the new `self` when the function declares one -/
+def finSelf (self : Option Shape) (st : SNode) (v : Val) : SNode :=
+  match self with
+  | none => st
+  | some _ => st.setSelf v
+
+/-- every stateful construct of `e` (and, through named calls, of the callee bodies) owns a cell of the right kind in
+the labelled layout: `mem` at a `mem` cell of its site, `delay n` at a `delay` cell of its site with the same
+length, a call of `f` at a child cell whose `self` shape is `f`'s and whose cells cover `f`'s body.
+(Lambda bodies run against a scratch state in `Model/Core.lean`, so they are unconstrained.) -/
+inductive Covers (P : Prog) : List LCell → Expr → Prop
+  | lit {cells b} : Covers P cells (.lit b)
+  | var {cells x} : Covers P cells (.var x)
+  | now {cells} : Covers P cells .now
+  | samplerate {cells} : Covers P cells .samplerate
+  | self {cells} : Covers P cells .self
+  | lam {cells ps body} : Covers P cells (.lam ps body)
+  | un {cells op a} : Covers P cells a → Covers P cells (.un op a)
+  | bin {cells op a b} : Covers P cells a → Covers P cells b → Covers P cells (.bin op a b)
+  | ite {cells c a b} : Covers P cells c → Covers P cells a → Covers P cells b → Covers P cells (.ite c a b)
+  | letE {cells x a body} : Covers P cells a → Covers P cells body → Covers P cells (.letE x a body)
+  | letTup {cells xs a body} : Covers P cells a → Covers P cells body → Covers P cells (.letTup xs a body)
+  | assign {cells x a rest} : Covers P cells a → Covers P cells rest → Covers P cells (.assign x a rest)
+  | proj {cells a i} : Covers P cells a → Covers P cells (.proj a i)
+  | tup {cells es} : (∀ e ∈ es, Covers P cells e) → Covers P cells (.tup es)
+  | app {cells f args} : Covers P cells f → (∀ e ∈ args, Covers P cells e) → Covers P cells (.app f args)
+  | mem {cells a site} : Covers P cells a → LCell.mem site ∈ cells → Covers P cells (.mem a site)
+  | delay {cells n a t site} : Covers P cells a → Covers P cells t → LCell.delay site n ∈ cells →
+      Covers P cells (.delay n a t site)
+  | call {cells f args site self cells'} : (∀ e ∈ args, Covers P cells e) → LCell.child site self cells' ∈ cells →
+      (∀ d, findFn P.fns f = some d → d.selfShape = self) →
+      (∀ d, findFn P.fns f = some d → Covers P cells' d.body) → Covers P cells (.call f args site)
+
+mutual
+/-- the evaluator's accessors return the same thing on both trees at this cell (recursively for a child; the
+child's `self` is compared after the zero-initialisation every call performs) -/
+def AgreeC : LCell → SNode → SNode → Prop
+  | .mem s, a, b => a.memAt s = b.memAt s
+  | .delay s n, a, b => a.ringAt n s = b.ringAt n s
+  | .child s self cells, a, b =>
+    (initSelf self (a.childAt s)).selfv = (initSelf self (b.childAt s)).selfv ∧ AgreeL cells (a.childAt s) (b.childAt s)
+def AgreeL : List LCell → SNode → SNode → Prop
+  | [], _, _ => True
+  | c :: cs, a, b => AgreeC c a b ∧ AgreeL cs a b
+end
+
+/-- two states of a running function instance agree: same `self`, same content at every cell of the layout -/
+def AgreeN (cells : List LCell) (a b : SNode) : Prop := a.selfv = b.selfv ∧ AgreeL cells a b
+
+/-- two stored states of a function instance agree (as `AgreeN` once the call has zero-initialised `self`) -/
+def Agree (lay : LNode) (a b : SNode) : Prop :=
+  (initSelf lay.self a).selfv = (initSelf lay.self b).selfv ∧ AgreeL lay.cells a b
+
+/-- the stored `self` is a first-order value of the declared shape; a function without `self` stores none -/
+def SelfOkS (self : Option Shape) (st : SNode) : Prop :=
+  match self with
+  | none => st.selfv = none
+  | some sh => ∀ v, st.selfv = some v → HasShape sh v
+
+mutual
+/-- `Conf` with `self` values of the declared SHAPE (not only the declared word count) -/
+def ConfS : LCell → SNode → Prop
+  | .mem _, _ => True
+  | .delay site n, st =>
+    (st.ringAt n site).data.length = n ∧ (st.ringAt n site).rd < 2 ^ 64 ∧ (st.ringAt n site).wr < 2 ^ 64
+  | .child site self cells, st => SelfOkS self (st.childAt site) ∧ ConfSL cells (st.childAt site)
+def ConfSL : List LCell → SNode → Prop
+  | [], _ => True
+  | c :: cs, st => ConfS c st ∧ ConfSL cs st
+end
+
+def ConformsS (lay : LNode) (st : SNode) : Prop := SelfOkS lay.self st ∧ ConfSL lay.cells st
+
+/-- relational lifting to results: same error, or related successes -/
+def SRel {α : Type} (R : α → α → Prop) : Res α → Res α → Prop
+  | .ok a, .ok b => R a b
+  | .error e₁, .error e₂ => e₁ = e₂
+  | _, _ => False
+
+/-- same value, same store, agreeing states -/
+def RE {α : Type} (cells : List LCell) (r₁ r₂ : α × Store × SNode) : Prop :=
+  r₁.1 = r₂.1 ∧ r₁.2.1 = r₂.2.1 ∧ AgreeN cells r₁.2.2 r₂.2.2
+
+/-- the life of one function instance: per sample, `self` is zero-initialised if absent, the body is evaluated
+against the instance's state, the returned value becomes the new `self` (what `eval`'s `call` and `Machine.step`
+do with the instance); yields the returned values (`none` and stop at the first error) -/
+def instRun (fuel : Nat) (P : Prog) (self : Option Shape) (body : Expr) :
+    List (Rt × Env × Store) → SNode → List (Option Val)
+  | [], _ => []
+  | (rt, env, σ) :: rest, st =>
+    match eval fuel P rt env body σ (initSelf self st) with
+    | .error _ => [none]
+    | .ok (v, _, st') => some v :: instRun fuel P self body rest (finSelf self st' v)
+
+/-- two machines between samples: same globals, same sample index, agreeing `dsp` state -/
+def MAgree (lay : LNode) (m₁ m₂ : Machine) : Prop :=
+  m₁.store = m₂.store ∧ m₁.t = m₂.t ∧ Agree lay m₁.root m₂.root
+
 /-- the words of a region of a storage whose words are kept as naturals (`Model/StateTree.lean`: `applyPatches`) -/
 def wordsAt (l : List Nat) (off size : Nat) : List UInt64 :=
   (List.range size).map fun w => (l.getD (off + w) 0).toUInt64
